@@ -1766,6 +1766,22 @@ namespace jsoncons {
                             return static_cast<int>(storage_kind()) - static_cast<int>(rhs.storage_kind());
                     }
                     break;
+                case json_storage_kind::half_float:
+                    switch (rhs.storage_kind())
+                    {
+                        case json_storage_kind::half_float:
+                        {
+                            auto r = as_double() - rhs.as_double();
+                            return r == 0 ? 0 : (r < 0.0 ? -1 : 1);
+                        }
+                        case json_storage_kind::const_json_ref:
+                            return compare(rhs.cast<const_json_ref_storage>().value());
+                        case json_storage_kind::json_ref:
+                            return compare(rhs.cast<json_ref_storage>().value());
+                        default:
+                            return static_cast<int>(storage_kind()) - static_cast<int>(rhs.storage_kind());
+                    }
+                    break;
                 case json_storage_kind::float64:
                     switch (rhs.storage_kind())
                     {
